@@ -3,7 +3,7 @@ From Coq Require Import PeanoNat Arith Lia.
 From AV Require Import Base.Bytes Base.Outcome Hash.HashModel Tree.Heap Tree.Ops Tree.Script Tree.Serialize
   Tree.Inv Tree.InvProofsBase Tree.InvProofsCore Tree.InvProofsTree Tree.InvProofs
   Tree.Files Tree.FilesProofsBase Tree.FilesProofsProj Tree.FilesProofsFrame Tree.FilesProofsOps
-  Tree.FilesProofsAdd Tree.FilesProofsRemove Tree.FilesProofsInv Tree.FilesProofsHist.
+  Tree.FilesProofsAdd Tree.FilesProofsRemove Tree.FilesProofsInv Tree.FilesProofsHist Tree.FilesProofsOwned.
 Open Scope string_scope.
 Open Scope list_scope.
 Open Scope N_scope.
@@ -93,6 +93,29 @@ Lemma reachable_all l w' :
   steps_ok T tab_el tab_en check_fn LATEST root_attrs l empty_world = true ->
   run_ops T tab_el tab_en check_fn LATEST root_attrs l empty_world = Val w' -> TreeInv w' /\ FilesInv T w'.
 Proof. apply inv_histories_all; [apply empty_treeinv | apply empty_filesinv]. Qed.
+
+(* FilesOwned: preserved by every operation; with it the Unowned exclusion disappears *)
+Lemma owned_step_all o w r w' : Core w -> FilesOwned w ->
+  run_op T tab_el tab_en check_fn LATEST root_attrs o w = Val (r, w') -> FilesOwned w'.
+Proof. apply owned_step. apply core_step_all. Qed.
+
+Lemma owned_not_unowned w o : FilesOwned w -> Unowned w o = false.
+Proof. apply owned_unowned. Qed.
+
+Lemma inv_step_owned_all o w r w' :
+  TreeInv w -> FilesInv T w -> FilesOwned w -> RootNamedLast T w o = false -> Known10 w o = false ->
+  run_op T tab_el tab_en check_fn LATEST root_attrs o w = Val (r, w') -> FilesInv T w' /\ FilesOwned w'.
+Proof. apply inv_step_owned. apply core_step_all. Qed.
+
+Lemma inv_histories_owned_all l w w' : TreeInv w -> FilesInv T w -> FilesOwned w ->
+  steps_ok_owned T tab_el tab_en check_fn LATEST root_attrs l w = true ->
+  run_ops T tab_el tab_en check_fn LATEST root_attrs l w = Val w' -> TreeInv w' /\ FilesInv T w' /\ FilesOwned w'.
+Proof. apply inv_histories_owned; [apply core_step_all | apply tree_step_all]. Qed.
+
+Lemma reachable_owned_all l w' :
+  steps_ok_owned T tab_el tab_en check_fn LATEST root_attrs l empty_world = true ->
+  run_ops T tab_el tab_en check_fn LATEST root_attrs l empty_world = Val w' -> TreeInv w' /\ FilesInv T w' /\ FilesOwned w'.
+Proof. apply inv_histories_owned_all; [apply empty_treeinv | apply empty_filesinv | apply empty_owned]. Qed.
 End Discharged.
 
 Import TinyF.
